@@ -151,6 +151,9 @@ def exec_spec_loop(ex, s, env, seq, spec, ordinal):
         ex.assume(And(0 <= k, k < n))
         for nm, t in inv_terms(k):
             ex.assume(t)
+        # if the facts force k = 0 (at-most-one-iteration loops), continue with the literal 0
+        if implied(ex, k == 0):
+            k = IntVal(0)
         head = ex.st.copy()
         ex.assign(s.target, seq.at(k), env)
         ex.exec_block(s.body, env)
@@ -168,6 +171,18 @@ def exec_spec_loop(ex, s, env, seq, spec, ordinal):
     for nm, t in inv_terms(n):
         ex.assume(t)
     return
+
+
+def implied(ex, fact, timeout_ms=2000):
+    from .zs import base_axioms
+    sv = z3.Solver()
+    sv.set("timeout", timeout_ms)
+    for a in base_axioms():
+        sv.add(a)
+    for h in ex.p.pc:
+        sv.add(h)
+    sv.add(Not(fact))
+    return sv.check() == z3.unsat
 
 
 def summarise(ex, s, env, seq):
